@@ -106,7 +106,17 @@ def check_nodes(dec, data, what):
                 sch.append(c + 32 * between(65, c, 90))
             if not (same_bytes(sch, list(b"http")) or same_bytes(sch, list(b"https")) or same_bytes(sch, list(b"ftp"))):
                 return hx.fail("url scheme not http/https/ftp", data=data, node=n), True
-            hosts = [c for c in n.children if c.type in ("network.domain", "network.ip", "network.ipv6")]
+            # non-empty host: after "://" (and an optional userinfo@) something other than / ? # : must follow
+            rest = v[len(sch) + 3:]
+            auth = []
+            for c in rest:
+                if c == 47 or c == 63 or c == 35:
+                    break
+                auth.append(c)
+            at = [i for i, c in enumerate(auth) if c == 64]
+            hostport = auth[at[-1] + 1:] if at else auth
+            if len(hostport) == 0 or hostport[0] == 58:
+                return hx.fail("url with an empty host", data=data, node=n), True
             for c in n.children:
                 todo.append((c, False, n.value))
     return True, seen_any
@@ -126,6 +136,8 @@ _add("email_local_free", Tmpl(b" a", 3, b"@example.com "), lambda d: check_nodes
 FU = ["multidecoder.decoders.network.find_urls", "multidecoder.decoders.network.normalize_percent_encoding", "multidecoder.decoders.network.is_url"]
 _add("url_pct_escape", Tmpl(b"http://example.com/%", (2, "hex"), b"z"), lambda d: check_nodes(find_urls, d, "find_urls"), funcs=FU, timeout=900)
 _add("url_scheme_free", Tmpl((1, "alpha"), b"ttp", (1, "alpha"), b"://example.com/"), lambda d: check_nodes(find_urls, d, "find_urls"), funcs=FU, timeout=900)
+CLASSES["quoteish"] = "({x} == 39 or {x} == 40 or {x} == 34 or {x} == 32)"
+_add("url_quote_context", Tmpl((1, "quoteish"), b"http://", 1, b"@example.com/a", 1), lambda d: check_nodes(find_urls, d, "find_urls"), funcs=FU, timeout=900)
 _add("url_context_truncation", Tmpl(1, b"http://example.com/a", 1, b"b"), lambda d: check_nodes(find_urls, d, "find_urls"), funcs=FU,
      tier="thorough", timeout=3000)
 _add("url_host_free2", Tmpl(b"http://", 2, b"example.com"), lambda d: check_nodes(find_urls, d, "find_urls"), funcs=FU, tier="thorough", timeout=3000)
